@@ -46,6 +46,19 @@ OK_SAVE_WRAPPERS = (re.compile(r"^id$"), re.compile(r"^tolist$"), re.compile(r"^
 OK_LOAD_WRAPPERS = (re.compile(r"^id$"), re.compile(r"^T\(vstack\[id for (\w+) in range\(len\(\w+\['parameters_precision'\]\)\)\]\)$"),
                     re.compile(r"^T\(vstack\[id for (\w+) in range\(len\(\w+\['parameters_bounds'\]\[[01]\]\)\)\]\)$"))
 #: wrappers that certainly change values (a finding); anything else that is not in the value-preserving tables is unknown (undecided)
+KIND_OF_FIELD = {"N": "int", "D": "int", "ensemble_size": "int", "n_jobs": "int", "current_batch_index": "int", "n_sampled_params": "int", "convergence_precision": "int",
+                 "initial_random_seed": "int", "random_state": "int", "verbose": "bool", "saving_file": "str", "saving_folder": "str", "model_name": "str"}
+
+
+def _same_kind_coercion(via: str, local: str, spath: str) -> bool:
+    kind = KIND_OF_FIELD.get(spath.split(".")[-1])
+    if kind is None:
+        return False
+    loc = re.escape(local)
+    core = rf"{kind}\(\s*{loc}\s*\)"
+    return bool(re.fullmatch(rf"{core}|{core} if {loc} is not None else None|None if {loc} is None else {core}", via))
+
+
 LOSSY = re.compile(r"round|around|astype|float32|float16|int32|int16|int8|\bint\(|clip|trunc|floor|ceil|\bstr\(|format|\[\s*-?\d*\s*:\s*-?\d+|\[\s*-?\d+\s*:|nan_to_num|abs\(|sorted|unique|\* |/ |\+ |- ")
 UNPICKLABLE = {"threading.Thread": "thread", "threading.Lock": "lock", "threading.RLock": "lock", "threading.Event": "event",
                "threading.Condition": "condition", "threading.Semaphore": "semaphore", "queue.Queue": "queue", "queue.SimpleQueue": "queue",
@@ -194,6 +207,8 @@ def r1_plumbing(ctx: Context, pl: Plumbing) -> None:
                 # a copy of the loaded value has the loaded value (copy.deepcopy(x), np.array(x), np.asarray(x), x.copy(), list(x) / tuple(x) of a sequence)
                 if re.fullmatch(r"(copy\.deepcopy|copy\.copy|np\.array|numpy\.array|np\.asarray|np\.copy|list|tuple)\(\s*" + re.escape(r["local"]) + r"\s*(,\s*copy\s*=\s*True\s*)?\)|" + re.escape(r["local"]) + r"\.copy\(\)", via_.strip()):
                     u = head_
+                elif _same_kind_coercion(via_.strip(), r["local"], spath):
+                    u = head_       # int(x) of an integer field, bool(x) of a flag, str(x) of a text field (possibly guarded by `is not None`): the value itself
                 else:
                     if not LOSSY.search(via_) and not re.fullmatch(re.escape(r["local"]), via_.strip()):
                         why = f"restored through the expression `{via_}`"
